@@ -226,6 +226,14 @@ func c17EvalAmt(w *mc.W, cas c17Amt) {
 		violateCapped(w, "roundtrip-or-string-panics", "amt", cas, msg)
 		return
 	}
+	// ToBCH is a unit conversion of its own (not necessarily ToUnit(AmountBCH)): the correctly rounded quotient
+	{
+		var ebuf [48]byte
+		exact := string(ref.AppendShiftDecimal(ebuf[:0], cas.A, 8))
+		if want, perr := strconv.ParseFloat(exact, 64); perr == nil && f != want && violRoom(w, "tobch-not-correctly-rounded") {
+			w.Ctx().Violate("tobch-not-correctly-rounded", "amt", cas, fmt.Sprintf("ToBCH = %s, nearest float64 to the exact value %s is %s", strconv.FormatFloat(f, 'g', -1, 64), exact, strconv.FormatFloat(want, 'g', -1, 64)))
+		}
+	}
 	switch {
 	case err != nil:
 		violateCapped(w, "roundtrip-newamount-rejects-tobch", "amt", cas, err.Error())
@@ -678,6 +686,32 @@ func runC17(c *mc.Ctx) {
 			w.State()
 			c17EvalAmt(w, c17Amt{A: a})
 			c17UnitsOf(w, a, -12, 12)
+		})
+	}
+	// (B4) runs of 2^20 (2^23) CONSECUTIVE amounts starting just above 10^e and 3*10^e for e = 9..15: an
+	// error that occurs once in 10^5..10^6 amounts of one decade (two roundings in a split conversion)
+	// is not met by windows of 2^12 amounts nor by lattices with a few thousand points per decade.
+	// Round trip, ToBCH and String for each (the 25 unit exponents are left to the families above).
+	{
+		run := mc.Pick[int64](c, 1<<20, 1<<23)
+		var starts []int64
+		p10 := int64(1_000_000_000)
+		for e := 9; e <= 15; e++ {
+			for _, m := range []int64{1, 3} {
+				if st := m*p10 + 12345; st+run <= c17Cap {
+					starts = append(starts, st)
+				}
+			}
+			p10 *= 10
+		}
+		c.Space("runs of consecutive amounts just above 10^e and 3*10^e, e = 9..15 (both signs): round trip, ToBCH, String", 2*run*int64(len(starts)))
+		c.ParFor(2*run*int64(len(starts)), func(w *mc.W, i int64) {
+			a := starts[(i/2)/run] + (i/2)%run
+			if i%2 == 1 {
+				a = -a
+			}
+			w.State()
+			c17EvalAmt(w, c17Amt{A: a})
 		})
 	}
 	c.Sample("amt", c17Amt{A: c17Cap - 1})
